@@ -106,8 +106,8 @@ func genCorpus(forC19 bool) []CorpusEntry {
 	// G: seeded synthetic specs in the supported dialect
 	seed := seedFromEnv()
 	for i := 0; i < envInt("VERIF_GEN_SPECS", 30); i++ {
-		name, text := specgen.Generate(seed, i)
-		c = append(c, CorpusEntry{Name: name, Class: "G", Spec: text, SpecName: "openapi.yaml"})
+		name, text, cfg := specgen.Generate(seed, i)
+		c = append(c, CorpusEntry{Name: name, Class: "G", Spec: text, SpecName: "openapi.yaml", HasConfig: cfg != "", Config: cfg})
 	}
 	return c
 }
